@@ -1197,7 +1197,9 @@ func c10IsolatedMain(args []string) {
 		b, _ := json.Marshal(k)
 		cmd := exec.Command(os.Args[0], "c10-one")
 		cmd.Stdin = bytes.NewReader(b)
-		cmd.Env = append(os.Environ(), fmt.Sprintf("VERIF_BALLAST=%d", 1+i%29))
+		// another heap and another process-level clock/randomness stream than
+		// the session's process had
+		cmd.Env = append(os.Environ(), fmt.Sprintf("VERIF_BALLAST=%d", 1+i%29), fmt.Sprintf("VERIF_PROCSEED=%d", 1+i%11))
 		var so, se bytes.Buffer
 		cmd.Stdout, cmd.Stderr = &so, &se
 		if err := cmd.Run(); err != nil {
@@ -1302,6 +1304,9 @@ type c10Replay struct {
 	HistoryKey *isoKey    `json:"history_key,omitempty"` // evaluated after the sessions and alone in a fresh process
 	History    []*Session `json:"history,omitempty"`     // sessions executed before Session in the same process
 	Note       string     `json:"note,omitempty"`
+	// ProcSeeds: the witness is HistoryKey evaluated alone in two fresh
+	// processes with these process-level clock/randomness seeds
+	ProcSeeds []uint64 `json:"proc_seeds,omitempty"`
 }
 
 func classOf(s *Session, w *Witness) (string, string) {
@@ -1623,7 +1628,7 @@ func c10ReplayMain(args []string) {
 	}
 	var rp c10Replay
 	readJSON(fs.Arg(0), &rp)
-	if rp.Session == nil {
+	if rp.Session == nil && len(rp.ProcSeeds) != 2 {
 		fatal(2, "replay file has no session")
 	}
 	class, w := replayC10(&rp, true)
